@@ -706,9 +706,10 @@ _PT_CACHE = {}
 
 
 def polar_transform_tabulated(repo: Repo):
-    if id(repo) not in _PT_CACHE:
-        _PT_CACHE[id(repo)] = _polar_transform_tabulated(repo)
-    return _PT_CACHE[id(repo)]
+    # kept on the repository object itself: an id() or a path may be reused by another tree within one process
+    if not hasattr(repo, "_kv_pt_cache"):
+        repo._kv_pt_cache = _polar_transform_tabulated(repo)
+    return repo._kv_pt_cache
 
 
 def _polar_transform_tabulated(repo: Repo):
